@@ -300,6 +300,10 @@ func (w *Worktree) getDualFS(wt billy.Filesystem) billy.Filesystem {
 	}
 
 	path := strings.TrimSpace(string(data[8:]))
+	if !filepath.IsAbs(path) {
+		// A gitfile may hold a path relative to the directory it lives in.
+		path = filepath.Join(wt.Root(), path)
+	}
 	rel, err := filepath.Rel(commonDir.Root(), path)
 	if err != nil {
 		return nil
